@@ -17,7 +17,7 @@ impl Prop for C08 {
     fn meta() -> Meta {
         Meta {
             level: "exploration",
-            rule: "Programs from the C03 grammar with INPUT v / v$ / cell targets spliced at every position the grammar offers (alone, after/before other statements, inside THEN, inside ELSE, inside THEN followed by ELSE, in FOR bodies and subroutines); structured reply scripts (numbers, decimals, negatives, bare words, quoted text with , and :, empty, blanks, surplus after , or :, replies of 260-320 characters) and cells that cannot be stored into (BAD SUBSCRIPT after a suitable reply) with non-numeric replies to numeric targets repeated; a share of requests is first interrupted by break + CONT. Oracle: lock-step reference model per segment (output before the request, REENTER/EXTRA IGNORED records, continuation equals the assignment, stored scalars equal the model's at every segment end) plus probe equality across every REENTER. distinct_nontrivial = distinct (program, ticks, inputs answered, stops, error, breaks) hashes among runs that answered >= 1 request.",
+            rule: "Programs from the C03 grammar with INPUT v / v$ / cell targets spliced at every position the grammar offers (alone, after/before other statements, inside THEN, inside ELSE, inside THEN followed by ELSE, in FOR bodies and subroutines); structured reply scripts (numbers, decimals, negatives, bare words, quoted text with , and :, empty, blanks, surplus after , or :, replies of 260-320 characters, numerals spelled +5 / 1e2 / .5 / 007 / 5.) and cells that cannot be stored into (BAD SUBSCRIPT after a suitable reply) with non-numeric replies to numeric targets repeated; a share of requests is first interrupted by break + CONT. Oracle: lock-step reference model per segment (output before the request, REENTER/EXTRA IGNORED records, continuation equals the assignment, stored scalars equal the model's at every segment end) plus probe equality across every REENTER. distinct_nontrivial = distinct (program, ticks, inputs answered, stops, error, breaks) hashes among runs that answered >= 1 request.",
             real: &["abasic-core Interpreter incl. DATA/reply parser (parse_data_until_colon), INPUT rewind path"],
             stub: &["the host (replies, breaks)", "reference model sim/src/model.rs with structured replies (no reply parser shared)"],
             assumptions: &[
